@@ -183,6 +183,9 @@ def relabel_job(spec, size):
         r1 = spec.call(inp)
         ri, rl = inp['ref']
         ei, el = inp['est']
+        # labels are compared case-insensitively by mir_eval: the bijection acts on the case-folded names
+        rl = [str(x).lower() for x in rl]
+        el = [str(x).lower() for x in el]
         names = sorted(set(rl)), sorted(set(el))
         # bijections onto fresh names whose sort order is reversed / rotated (index_labels sorts the names)
         maps = []
